@@ -555,6 +555,45 @@ impl Emit {
         }
     }
 
+    /// Closes a layer whose enclosing bracket is a clip by popping that clip *first* (not LIFO)
+    /// and the layer directly afterwards. Only for layer blend modes under which a transparent
+    /// group pixel leaves the destination alone: there the statement of C06 ("composited once
+    /// through the clip current at pop time") determines the result. Falls back to `close_one`.
+    pub fn early_clip_pop(&mut self, surf: usize) {
+        let b = &self.shadows[surf].brackets;
+        let n = b.len();
+        if n >= 2 && matches!(b[n - 1].0, mk::Bracket::Layer) && !matches!(b[n - 2].0, mk::Bracket::Layer) {
+            // blend of the layer on top: find its push
+            let mut depth = 0;
+            let mut blend = None;
+            for s in self.steps.iter().rev() {
+                if s.surf != surf {
+                    continue;
+                }
+                match &s.op {
+                    Op::PopLayer => depth += 1,
+                    Op::PushLayer { blend: bl, plain, .. } => {
+                        if depth == 0 {
+                            blend = Some(if *plain { BLEND_SRC_OVER } else { *bl });
+                            break;
+                        }
+                        depth -= 1;
+                    }
+                    _ => {}
+                }
+            }
+            let preserving = |m: u8| [0x00000000u32, 0xff102030, 0x80402010, 0x01000001].iter().all(|d| crate::kernel::blend_px(m, 0, *d) == *d);
+            if let Some(bl) = blend {
+                if bl < 24 && preserving(bl) {
+                    self.push(surf, Op::PopClip);
+                    self.push(surf, Op::PopLayer);
+                    return;
+                }
+            }
+        }
+        self.close_one(surf);
+    }
+
     pub fn close_all(&mut self) {
         for s in 0..self.surfaces.len() {
             while !self.shadows[s].brackets.is_empty() {
@@ -913,6 +952,8 @@ pub struct SceneCfg {
     /// clip paths restricted to pixel aligned rectangles (k in {0,255})
     pub aligned_clip_paths: bool,
     pub layer_blend: BlendProfile,
+    /// now and then pop the clip under a layer just before the layer (see Emit::early_clip_pop)
+    pub early_clip_pop: bool,
 }
 
 pub fn gen_clip_path(rng: &mut Rng, w: i32, h: i32, aligned: bool) -> PathSpec {
@@ -967,7 +1008,11 @@ pub fn gen_scene(rng: &mut Rng, em: &mut Emit, surf: usize, cfg: &SceneCfg) {
             em.push(surf, Op::PushLayer { opacity: F(opacity), blend, plain });
             after_state_change = true;
         } else if hit(cfg.p_pop) && open > 0 {
-            em.close_one(surf);
+            if cfg.early_clip_pop && rng.chance(1, 4) {
+                em.early_clip_pop(surf);
+            } else {
+                em.close_one(surf);
+            }
             after_state_change = true;
         } else if hit(cfg.p_transform) {
             em.push(surf, Op::SetTransform(gen_transform(rng, w, h, cfg.allow_singular)));
